@@ -90,6 +90,7 @@ type Contract struct {
 	Callsites []*CallsiteSpec
 	Flags     map[string]bool
 	Effects   []string
+	Waive     map[string]string // obligation kind -> reason (listed in evidence)
 	File      string
 	Line      int
 }
@@ -601,11 +602,12 @@ func parseSpecFile(file string, repoStyle bool, defaultPkg string, specs map[str
 			get().Funs[fd.Name] = fd
 			fn = nil
 		case "ghost":
-			if cs != nil {
+			if cs != nil && strings.Contains(strings.ReplaceAll(strings.ReplaceAll(strings.ReplaceAll(rest, "==", ""), "!=", ""), "<=", ""), "=") {
 				a := parseAssign(rest, file, lineNo)
 				cs.Ghost = append(cs.Ghost, a)
 				continue
 			}
+			fn, loop, cs = nil, nil, nil
 			f := strings.Fields(rest)
 			if len(f) < 2 {
 				fatalf("%s:%d: bad ghost", file, lineNo)
@@ -732,6 +734,18 @@ func parseSpecFile(file string, repoStyle bool, defaultPkg string, specs map[str
 				fatalf("%s:%d: owns outside func", file, lineNo)
 			}
 			fn.Effects = append(fn.Effects, "owns "+rest)
+		case "waive":
+			if fn == nil {
+				fatalf("%s:%d: waive outside func", file, lineNo)
+			}
+			f := strings.SplitN(rest, " ", 2)
+			if len(f) != 2 {
+				fatalf("%s:%d: waive <kind> <reason>", file, lineNo)
+			}
+			if fn.Waive == nil {
+				fn.Waive = map[string]string{}
+			}
+			fn.Waive[f[0]] = strings.Trim(f[1], "\"")
 		case "effect":
 			if fn == nil {
 				fatalf("%s:%d: effect outside func", file, lineNo)
